@@ -6,8 +6,8 @@ import FancyModel.Proofs.C01g
 Stage S4 (Proofs/C01g.lean) accepts an easy constant-size run that owns capture groups and is not linear
 — compiled to ONE `Delegate`, which yields only the first result of the run — in the concatenation at the
 TOP of the pattern. Stage S5 accepts such runs in every concatenation the compiler meets: inside groups,
-alternations, repeats (`?`, `*`, `+`, `{m,n}`, greedy and lazy), look-ahead bodies, atomic groups and the
-branches of conditionals: `(?:(?:x(a)|y(b))(?=c))+`, `(?=(?:x(a)|y(b))\b)z`, `(z)|(?:x(a)|y(b))(?!c)`.
+alternations, repeats (`?`, `*`, `+`, `{m,n}`, greedy and lazy), look-around bodies (ahead and behind, all
+four layouts of a look-behind), atomic groups and the branches of conditionals: `(?:(?:x(a)|y(b))(?=c))+`, `(?=(?:x(a)|y(b))\b)z`, `(z)|(?:x(a)|y(b))(?!c)`.
 
 * machine half (`Lemmas/SimCompile5.lean`, `sim5_visit`): the code of `e` simulates the semantics of
   `atomizeP br e hard`, the tree with those runs wrapped in atomic groups;
@@ -15,15 +15,13 @@ branches of conditionals: `(?:(?:x(a)|y(b))(?=c))+`, `(?=(?:x(a)|y(b))\b)z`, `(z
   list of the atomized tree is DOMINATED by that of the original tree — it is obtained by dropping
   results that agree, outside the slots `U` of the atomized runs, with an earlier kept result — and
   domination is kept by every constructor of `sem` (concatenation, alternation, the loop `repLoop` for all
-  bounds, look-arounds, atomic groups, conditionals) as long as nothing READS a slot of `U`; dominated
-  lists have the same head;
+  bounds, look-aheads, look-behinds with their backward reading of the body, atomic groups, conditionals)
+  as long as nothing READS a slot of `U`; dominated lists have the same head;
 * the side condition `unref5OK br raw` (Spec/Stage5.lean) is the conservative one: no back-reference and
   no group test ANYWHERE in the raw tree names a group owned by an atomized run. (Stage S4 asks less of
   the top-level concatenation — only of what comes after the run — so `s5Stage` is defined as
   `s4Stage || …`.)
 
-NOT covered: such runs inside look-BEHIND bodies (these stay at stage S3; `atomizeP` does not descend
-into them).
 -/
 namespace Fancy
 
@@ -296,5 +294,44 @@ example (c : Ctx) (hlen : c.len < UNSET) (hpos : c.pos ≤ c.len) : ∃ b, build
 
 example (c : Ctx) (hlen : c.len < UNSET) (hpos : c.pos ≤ c.len) : ∃ b, build ex5c [] = .ok b ∧ VmCorrectR b c :=
   C01_checked_s5 ex5c [] ex5c_stage.1 c hlen hpos
+
+/-- `(?<=(?:x(a)|y(b))\b)z`: the run is the prefix of the body of a look-behind -/
+def ex5d : Expr := .concat [.look (.concat [exRun, .assertion .wordB]) .behind, .literal ['z'] false]
+
+/-- `(?<!(?:x(a)|y(b))\b|qqq\b)w`: a negative look-behind whose alternatives have different sizes (compiled to a
+    sequence of negative look-behinds); the run is the prefix of the first alternative -/
+def ex5e : Expr := .concat [.look (.alt [.concat [exRun, .assertion .wordB],
+  .concat [.literal ['q'] false, .literal ['q'] false, .literal ['q'] false, .assertion .wordB]]) .behindNeg,
+  .literal ['w'] false]
+
+set_option linter.unusedSimpArgs false in
+theorem ex5d_stage : s5Stage ex5d [] = true ∧ s4Stage ex5d [] = false := by
+  constructor <;>
+  simp [s5Stage, s5New, s5Raw, s5ok, s5okAll, s5okAlts, unref5OK, noRead, noReadAll, atzSlots, atzSlotsAll, atzSlotsAlts, runSlots,
+    s4Stage, s3Stage, s4ok, unrefOK, untouched, untouchedAll, ownSlotsS, ownSlotsListS, linearE, linearAll, build, ex5d, exRun,
+    wrapTree, renumber, renumberList, checkRefs, checkRefsList, isHard, isHardAny,
+    compile, visit, visitMiddle, visitAlt, visitAltBody, lookBehindAlts, lookBehindNegAlts, concatSplit, groupCount, groupCountList,
+    constSize, constSizeAll, minSize, minSizeMin,
+    minSizeSum, allMinSize, compileDelegates, compileDelegate, isLiteral, isLiteralAll, s3ok, s3okAll, s3okAlts, condFree, condFreeAll,
+    boundsEq, satMul, satAdd, sureReps, UNSET, Assertion.isHard, wrapPosLook, wrapNegLook, posLookBodyPc, negLookBodyPc, pushLiteral,
+    wellShaped, wellShapedAll, noBareEndZ, noBareEndZAll, slotsBelow, slotsBelowAll, progDelegOK]
+
+set_option linter.unusedSimpArgs false in
+theorem ex5e_stage : s5Stage ex5e [] = true ∧ s4Stage ex5e [] = false := by
+  constructor <;>
+  simp [s5Stage, s5New, s5Raw, s5ok, s5okAll, s5okAlts, unref5OK, noRead, noReadAll, atzSlots, atzSlotsAll, atzSlotsAlts, runSlots,
+    s4Stage, s3Stage, s4ok, unrefOK, untouched, untouchedAll, ownSlotsS, ownSlotsListS, linearE, linearAll, build, ex5e, exRun,
+    wrapTree, renumber, renumberList, checkRefs, checkRefsList, isHard, isHardAny,
+    compile, visit, visitMiddle, visitAlt, visitAltBody, lookBehindAlts, lookBehindNegAlts, concatSplit, groupCount, groupCountList,
+    constSize, constSizeAll, minSize, minSizeMin,
+    minSizeSum, allMinSize, compileDelegates, compileDelegate, isLiteral, isLiteralAll, s3ok, s3okAll, s3okAlts, condFree, condFreeAll,
+    boundsEq, satMul, satAdd, sureReps, UNSET, Assertion.isHard, wrapPosLook, wrapNegLook, posLookBodyPc, negLookBodyPc, pushLiteral,
+    wellShaped, wellShapedAll, noBareEndZ, noBareEndZAll, slotsBelow, slotsBelowAll, progDelegOK]
+
+example (c : Ctx) (hlen : c.len < UNSET) (hpos : c.pos ≤ c.len) : ∃ b, build ex5d [] = .ok b ∧ VmCorrectR b c :=
+  C01_checked_s5 ex5d [] ex5d_stage.1 c hlen hpos
+
+example (c : Ctx) (hlen : c.len < UNSET) (hpos : c.pos ≤ c.len) : ∃ b, build ex5e [] = .ok b ∧ VmCorrectR b c :=
+  C01_checked_s5 ex5e [] ex5e_stage.1 c hlen hpos
 
 end Fancy
